@@ -75,6 +75,8 @@ def subsets(tier):
             if names & {"GRAIN0", "GRAIN0-"} and names & {"#1H", "#2H"}:
                 continue
             yield sel
+    # one set beyond single-digit sizes (slot values >= 10)
+    yield [e for e in pool if e[0] not in ("#1H", "#2H")]
 
 
 def ucl_subsets(tier):
